@@ -85,7 +85,7 @@ def _client_hello(pattern):
             suites = [(0x0a0a + 0x1010 * (i % 16)) for i in range(count)]
         else:
             suites = ordinary
-            extensions = [ref.extension(0xfe00 + i % 200, b'') for i in range(max(1, min(16000, size // 4)))]
+            extensions = [ref.extension(0x4000 + i, b'') for i in range(max(1, min(16000, size // 4)))]     # pairwise different, unassigned
         return ref.client_hello(0x0303, b'\x11' * 32, b'', suites, [0], extensions)
     return make
 
